@@ -4,7 +4,9 @@ From RU Require Import Base.Prelude Base.Utf8 Model.AsciiSet Gen.Tables Model.Pe
   Model.HostT Model.UrlRecord Model.Parser Model.Mime Model.Base64 Model.DataUrl Model.DataUrlTie Model.KnownC17
   Spec.Infra Spec.MimeSniff Spec.Fetch
   Proofs.C02_Parts Proofs.C18_BodyRef Proofs.C17_Tables Proofs.C17_Total Proofs.C17_Decode Proofs.C17_Main
-  Proofs.C17_Bridge Proofs.C17_Fragment Proofs.C17_Body Proofs.C17_BodyUrl.
+  Proofs.C17_Bridge Proofs.C17_Fragment Proofs.C17_Body Proofs.C17_BodyUrl
+  Proofs.C17_Header Proofs.C17_HeaderUrl Proofs.C17_Mime Proofs.C17_Partial
+  Proofs.C17_HeaderQ Proofs.C17_Full Proofs.C17_Known Proofs.C17_Scheme Proofs.C17_Final.
 
 (* the byte classes and literals of data-url/src/lib.rs, regenerated from the source on every run, are
    the Standards': the C0-control / query / fragment percent-encode sets (as url/src/parser.rs defines
@@ -30,9 +32,8 @@ Proof.
 Qed.
 Print Assumptions C17_tables.
 
-(* ---- the full statement.  NOT proved as a whole: what is proved of it is C17_total, C17_base64,
-   C17_mime_fallback, C17_decode (below); completeness of Known_C17 for the rest is decided by
-   the fixed-seed differential run of the check (a test). ---- *)
+(* ---- the full statement.  Proved: Theorem C17 at the end of this file (the theorems in between are
+   its parts, kept under their own names). ---- *)
 Definition C17_statement : Prop := Proofs.C17_Main.C17_statement.
 Check (eq_refl : C17_statement =
   forall (dbg : bool) (hp ho : list N -> result host) (hd : host -> list N) (s : list N) (u : url),
@@ -166,6 +167,233 @@ Theorem C17_no_comma : forall dbg hp ho hd s rem u, usv_list s ->
   Fetch.process (url_without_fragment u) = None.
 Proof. exact no_comma_is_fetch_failure. Qed.
 Print Assumptions C17_no_comma.
+
+(* ---- the header half ---- *)
+
+(* the Fetch processor, with the steps that only look at mimeType (6: strip ASCII whitespace; 11: the
+   base64-marker condition and 11.4-11.6; 12: the "text/plain" prefix) collected in fetch_header
+   (Proofs/C17_Header.v): fetch_header mimeType = (the string given to "parse a MIME type", the flag) *)
+Theorem C17_fetch_header : forall serialization,
+  Fetch.process serialization =
+  match collect_until_comma (remove_data_colon [100; 97; 116; 97; 58] serialization) with
+  | (_, None) => None
+  | (mimeType, Some encodedBody) =>
+      let body := string_percent_decode encodedBody in
+      match (if snd (fetch_header mimeType) then forgiving_base64_decode body else Some body) with
+      | None => None
+      | Some body' =>
+          Some (match parse_a_mime_type (fst (fetch_header mimeType)) with
+                | Some r => r
+                | None => text_plain_us_ascii
+                end, body')
+      end
+  end.
+Proof. exact fetch_process_alt_eq. Qed.
+Print Assumptions C17_fetch_header.
+
+(* parse_header in closed form: header_of h (Proofs/C17_Header.v) = (the String handed to Mime::from_str,
+   the base64 flag): trim, the backwards scan for ';' spaces* "base64", the "text/plain" prefix, the
+   percent-encoding loop *)
+Theorem C17_parse_header : forall h,
+  parse_header h = bind (Mime.from_str (fst (header_of h)))
+                        (fun parsed => Ok (match parsed with Some m => m | None => fallback_mime end, snd (header_of h))).
+Proof. exact parse_header_eq. Qed.
+Print Assumptions C17_parse_header.
+
+(* header text and base64 flag: opaque path, no '?' in the header: what parse_header hands to the MIME
+   parser, and its flag, are what steps 4-6, 11 and 12 of the processor make of the text between
+   "data:" and the first comma of the URL serialization *)
+Theorem C17_header_text : forall dbg hp ho hd s rem u h B, usv_list s ->
+  parse_scheme CUrlParser (input_new_trim_c0 s) = Some (s_data, rem) -> inp_split_prefix_char 47 rem = None ->
+  parse_url dbg hp ho hd None None s = POk u ->
+  find_comma_before_fragment (utf8_encode rem) = Ok (Some (h, B)) ->
+  ~ In 63 h ->
+  exists mimeType encodedBody,
+    collect_until_comma (skipn 5 (url_without_fragment u)) = (mimeType, Some encodedBody)
+    /\ header_of h = fetch_header mimeType.
+Proof. exact header_is_fetch_header. Qed.
+Check C17_header_text : forall dbg hp ho hd s rem u h B, usv_list s ->
+  parse_scheme CUrlParser (input_new_trim_c0 s) = Some (s_data, rem) -> inp_split_prefix_char 47 rem = None ->
+  parse_url dbg hp ho hd None None s = POk u ->
+  find_comma_before_fragment (utf8_encode rem) = Ok (Some (h, B)) ->
+  ~ In 63 h ->
+  exists mimeType encodedBody,
+    collect_until_comma (skipn 5 (url_without_fragment u)) = (mimeType, Some encodedBody)
+    /\ header_of h = fetch_header mimeType.
+Print Assumptions C17_header_text.
+
+(* the base64 flag alone, in the Standard's words: mimeType (stripped) ends with ';', U+0020s, "base64" *)
+Theorem C17_base64_flag : forall dbg hp ho hd s rem u h B, usv_list s ->
+  parse_scheme CUrlParser (input_new_trim_c0 s) = Some (s_data, rem) -> inp_split_prefix_char 47 rem = None ->
+  parse_url dbg hp ho hd None None s = POk u ->
+  find_comma_before_fragment (utf8_encode rem) = Ok (Some (h, B)) ->
+  ~ In 63 h ->
+  exists mimeType encodedBody,
+    collect_until_comma (skipn 5 (url_without_fragment u)) = (mimeType, Some encodedBody)
+    /\ forall m b, parse_header h = Ok (m, b) ->
+       b = match ends_with_base64_marker (strip_leading_and_trailing_ascii_whitespace mimeType) with
+           | Some _ => true
+           | None => false
+           end.
+Proof. exact base64_flag_is_fetch. Qed.
+Print Assumptions C17_base64_flag.
+
+(* MIME parser equivalence: on every string of HTTP quoted-string token code points (TAB, 0x20-0x7E,
+   0x80-0xFF; F-C19-2 needs a code point outside) Mime::from_str is the MIME Sniffing Standard's
+   "parse a MIME type" *)
+Theorem C17_mime_equiv : forall t, Forall (fun c => http_quoted_string_token_cp c = true) t ->
+  Mime.parse t = Ok (option_map (fun r => mk_mime (mt_type r) (mt_subtype r) (mt_parameters r)) (parse_a_mime_type t)).
+Proof. exact mime_parse_equiv. Qed.
+Check C17_mime_equiv : forall t, Forall (fun c => http_quoted_string_token_cp c = true) t ->
+  Mime.parse t = Ok (option_map (fun r => mk_mime (mt_type r) (mt_subtype r) (mt_parameters r)) (parse_a_mime_type t)).
+Print Assumptions C17_mime_equiv.
+
+(* hence the statement C17_Main left open (printable ASCII) *)
+Theorem C17_mime : C17_mime_statement.
+Proof. exact mime_statement_holds. Qed.
+Check C17_mime : forall t, Forall printable t ->
+  Mime.parse t = Ok (option_map (fun r => mk_mime (mt_type r) (mt_subtype r) (mt_parameters r)) (parse_a_mime_type t)).
+Print Assumptions C17_mime.
+
+(* the MIME type clause: the record DataUrl::mime_type returns is the one the processor computes *)
+Theorem C17_mime_type : forall dbg hp ho hd s rem u h B, usv_list s ->
+  parse_scheme CUrlParser (input_new_trim_c0 s) = Some (s_data, rem) -> inp_split_prefix_char 47 rem = None ->
+  parse_url dbg hp ho hd None None s = POk u ->
+  find_comma_before_fragment (utf8_encode rem) = Ok (Some (h, B)) ->
+  ~ In 63 h ->
+  exists mimeType encodedBody,
+    collect_until_comma (skipn 5 (url_without_fragment u)) = (mimeType, Some encodedBody)
+    /\ forall m b, parse_header h = Ok (m, b) ->
+       record_of_mime m = match parse_a_mime_type (fst (fetch_header mimeType)) with
+                          | Some r => r
+                          | None => text_plain_us_ascii
+                          end.
+Proof. exact mime_type_is_fetch. Qed.
+Print Assumptions C17_mime_type.
+
+(* ---- C17 for the class "opaque path, header without '?', body outside K3": MIME type record, body
+   bytes (base64 or not), fragment, and failure (no comma / invalid base64) all agree.
+   (superseded by C17_opaque / C17_partial2 below, kept because other files may use it) ---- *)
+Theorem C17_partial : forall dbg hp ho hd s rem u, usv_list s ->
+  parse_scheme CUrlParser (input_new_trim_c0 s) = Some (s_data, rem) -> inp_split_prefix_char 47 rem = None ->
+  parse_url dbg hp ho hd None None s = POk u ->
+  (forall h B, find_comma_before_fragment (utf8_encode rem) = Ok (Some (h, B)) ->
+               ~ In 63 h /\ k17_split_escape B = false) ->
+  fetch_view (process_and_decode s) = fetch_of_url u.
+Proof. exact opaque_noq_is_fetch. Qed.
+Check C17_partial : forall dbg hp ho hd s rem u, usv_list s ->
+  parse_scheme CUrlParser (input_new_trim_c0 s) = Some (s_data, rem) -> inp_split_prefix_char 47 rem = None ->
+  parse_url dbg hp ho hd None None s = POk u ->
+  (forall h B, find_comma_before_fragment (utf8_encode rem) = Ok (Some (h, B)) ->
+               ~ In 63 h /\ k17_split_escape B = false) ->
+  fetch_view (process_and_decode s) = fetch_of_url u.
+Print Assumptions C17_partial.
+
+(* the hypotheses of C17_partial (and of C17_header_text ...) hold for " DATA:Text/HTML;Charset=x;base64,W%20A==#a b" *)
+Example C17_partial_premises :
+  let s := [32;68;65;84;65;58;84;101;120;116;47;72;84;77;76;59;67;104;97;114;115;101;116;61;120;59;98;97;115;101;54;52;44;87;37;50;48;65;61;61;35;97;32;98] in
+  exists rem u, usv_list s
+    /\ parse_scheme CUrlParser (input_new_trim_c0 s) = Some (s_data, rem) /\ inp_split_prefix_char 47 rem = None
+    /\ parse_url true toy_hp toy_hp toy_hd None None s = POk u
+    /\ exists h B, find_comma_before_fragment (utf8_encode rem) = Ok (Some (h, B))
+                   /\ forallb (fun c => negb (c =? 63)) h = true /\ k17_split_escape B = false
+                   /\ snd (header_of h) = true.
+Proof.
+  cbv zeta. eexists. eexists. split; [apply usv_list_b; vm_compute; reflexivity|].
+  split; [vm_compute; reflexivity|]. split; [vm_compute; reflexivity|]. split; [vm_compute; reflexivity|].
+  eexists. eexists. split; [vm_compute; reflexivity|]. vm_compute. repeat split.
+Qed.
+
+(* ---- headers with '?' ---- *)
+
+(* byte level: a header h (no '#') whose text without tab / newline is a ++ "?" ++ q (a without '?'),
+   outside K2: parse_header computes what steps 6, 11, 12 make of  C0-encode(a) "?" query-encode(q),
+   which is what the serializer writes (opaque path, then query) *)
+Theorem C17_header_query : forall h a q, bytes h -> ~ In 35 h ->
+  filter C02_Enc.not_tnl h = a ++ 63 :: q -> ~ In 63 a ->
+  k17_query_space (filter C02_Enc.not_tnl h) = false ->
+  header_of h = fetch_header (encode T_CONTROLS a ++ 63 :: encode T_QUERY q).
+Proof. exact header_bytes_q. Qed.
+Print Assumptions C17_header_query.
+
+(* every opaque-path data: URL whose header is outside K2 and whose body is outside K3 *)
+Theorem C17_opaque : forall dbg hp ho hd s rem u, usv_list s ->
+  parse_scheme CUrlParser (input_new_trim_c0 s) = Some (s_data, rem) -> inp_split_prefix_char 47 rem = None ->
+  parse_url dbg hp ho hd None None s = POk u ->
+  (forall h B, find_comma_before_fragment (utf8_encode rem) = Ok (Some (h, B)) ->
+               k17_query_space (filter C02_Enc.not_tnl h) = false /\ k17_split_escape B = false) ->
+  fetch_view (process_and_decode s) = fetch_of_url u.
+Proof. exact opaque_is_fetch. Qed.
+Print Assumptions C17_opaque.
+
+(* K2 and K3 read on the UTF-8 bytes are K2 and K3 read on the code points *)
+Theorem C17_known_utf8 : forall X, usv_list X ->
+  k17_query_space (utf8_encode X) = k17_query_space X /\ k17_split_escape (utf8_encode X) = k17_split_escape X.
+Proof. exact (fun X H => conj (query_space_utf8 X H) (split_escape_utf8 X H)). Qed.
+Print Assumptions C17_known_utf8.
+
+(* ---- C17 outside Known_C17: C17_statement with the premise "url_is_data u" replaced by "parse_scheme
+   reads the scheme data from the trimmed input" (the URL parser's own first step).  MIME type record,
+   body, fragment and failure agree for EVERY such input outside the computable class Known_C17. ---- *)
+Theorem C17_partial2 : forall dbg hp ho hd s rem u, usv_list s ->
+  parse_scheme CUrlParser (input_new_trim_c0 s) = Some (s_data, rem) ->
+  parse_url dbg hp ho hd None None s = POk u ->
+  ~ Known_C17 s ->
+  fetch_view (process_and_decode s) = fetch_of_url u.
+Proof. exact outside_known_is_fetch. Qed.
+Check C17_partial2 : forall dbg hp ho hd s rem u, usv_list s ->
+  parse_scheme CUrlParser (input_new_trim_c0 s) = Some (s_data, rem) ->
+  parse_url dbg hp ho hd None None s = POk u ->
+  ~ Known_C17 s ->
+  fetch_view (process_and_decode s) = fetch_of_url u.
+Print Assumptions C17_partial2.
+
+(* the one fact about the URL parser model that separates C17_partial2 from C17_statement: the scheme of
+   the URL record the parser returns is the scheme text parse_scheme read.  First as a hypothesis
+   (kept), then proved (C17_scheme). *)
+Theorem C17_modulo_scheme :
+  (forall (dbg : bool) (hp ho : list N -> result host) (hd : host -> list N) (s sch rem : list N) (u : url),
+     usv_list s -> parse_scheme CUrlParser (input_new_trim_c0 s) = Some (sch, rem) ->
+     parse_url dbg hp ho hd None None s = POk u -> url_is_data u = true -> sch = s_data)
+  -> C17_statement.
+Proof. exact statement_modulo_scheme. Qed.
+Print Assumptions C17_modulo_scheme.
+
+(* parse_url without a base: the scheme slice of the record is what parse_scheme read - every later step
+   of the parser only appends to the serialization or truncates / splices it behind "scheme:"
+   (one lemma per parser function, Proofs/C17_Scheme.v) *)
+Theorem C17_scheme : forall dbg hp ho hd ovr input sch rem u,
+  parse_scheme CUrlParser (input_new_trim_c0 input) = Some (sch, rem) ->
+  parse_url dbg hp ho hd ovr None input = POk u ->
+  nfirstn (scheme_end u) (ser u) = sch.
+Proof. exact parse_url_scheme. Qed.
+Print Assumptions C17_scheme.
+
+(* ---- C17 ---- *)
+Theorem C17 : C17_statement.
+Proof. exact c17_statement_holds. Qed.
+Check C17 :
+  forall (dbg : bool) (hp ho : list N -> result host) (hd : host -> list N) (s : list N) (u : url),
+    usv_list s ->
+    parse_url dbg hp ho hd None None s = POk u -> url_is_data u = true ->
+    ~ Known_C17 s ->
+    fetch_view (process_and_decode s) = fetch_of_url u.
+Print Assumptions C17.
+
+(* the premises of C17 / C17_partial2 hold for "data:a/b;p=q?x%20;base64,QUJD#z" (a header with '?', base64)
+   and both sides agree on a non-trivial result *)
+Example C17_partial2_premises :
+  let s := [100;97;116;97;58;97;47;98;59;112;61;113;63;120;37;50;48;59;98;97;115;101;54;52;44;81;85;74;68;35;122] in
+  exists rem u, usv_list s
+    /\ parse_scheme CUrlParser (input_new_trim_c0 s) = Some (s_data, rem)
+    /\ parse_url true toy_hp toy_hp toy_hd None None s = POk u
+    /\ url_is_data u = true /\ known_c17 s = 0
+    /\ fetch_of_url u = FOk (mk_mime_type [97] [98] [([112], [113;63;120;37;50;48])]) [65;66;67] (Some [122]).
+Proof.
+  cbv zeta. eexists. eexists. split; [apply usv_list_b; vm_compute; reflexivity|].
+  split; [vm_compute; reflexivity|]. split; [vm_compute; reflexivity|]. split; [vm_compute; reflexivity|].
+  split; vm_compute; reflexivity.
+Qed.
 
 (* inside Known_C17 the statement fails: one witness per finding (toy host functions; none of the
    witnesses has an authority) *)
